@@ -71,6 +71,10 @@ def build_case(scen, reactor, log, flushlog=None):
             return None
         if b["b"] == "raise":
             raise exc_of(b["k"], unit)
+        if b["b"] == "dpause":
+            inner = defer.Deferred()
+            reactor.callLater(b["d"], inner.callback, None)
+            return defer.succeed(None).addCallback(lambda _: inner)  # called, but paused until `inner` fires
         d = defer.Deferred()
         if b["b"] == "dfire":
             reactor.callLater(b["d"], d.callback, None)
@@ -204,7 +208,7 @@ def risky(scen):
 
 def nontrivial(scen):
     beh = scen["beh"]
-    return any(b["b"] in ("dfire", "dfail", "never") for b in beh.values()) or scen["side"]["what"] != "none"
+    return any(b["b"] in ("dfire", "dpause", "dfail", "never") for b in beh.values()) or scen["side"]["what"] != "none"
 
 
 def signature(scen, clause):
